@@ -352,3 +352,45 @@ Proof.
     + intros x Hx Hnx. contradiction.
     + unfold reserved. rewrite N.sub_diag. cbn. intros x [].
 Qed.
+
+(* ---------- the bookmark fields after a program = those after its add_bookmark calls alone ---------- *)
+Definition same_bm (a b : Outline.bdoc) : Prop :=
+  Outline.max_bookmark_id a = Outline.max_bookmark_id b /\ Outline.bookmarks a = Outline.bookmarks b /\
+  Outline.bookmark_table a = Outline.bookmark_table b.
+
+Fixpoint bcalls (ops : list sop) : list Outline.bop :=
+  match ops with
+  | [] => []
+  | SAddBookmark t f c p par :: r =>
+    {| Outline.op_title := t; Outline.op_format := f; Outline.op_color := c; Outline.op_page := p; Outline.op_parent := par |}
+      :: bcalls r
+  | _ :: r => bcalls r
+  end.
+
+Lemma add_bookmark_same_bm a b bm par : same_bm a b ->
+  same_bm (fst (Outline.add_bookmark a bm par)) (fst (Outline.add_bookmark b bm par)).
+Proof.
+  intros [E1 [E2 E3]]. unfold Outline.add_bookmark. rewrite E1, E2, E3.
+  destruct par as [p|]; [destruct (Outline.tbl_get _ p)|]; cbn; repeat split; reflexivity.
+Qed.
+
+Lemma sstep_same_bm O s o : s_is_renumber o = false ->
+  match o with SAddBookmark _ _ _ _ _ => True | _ => same_bm (fst (sstep O s o)) s end.
+Proof.
+  intro NR. destruct o as [x|t f c p par|]; [| exact I |].
+  - cbn [s_is_renumber] in NR. rewrite (sstep_doc O s x NR). cbn [fst]. repeat split; reflexivity.
+  - cbn [sstep]. destruct (Outline.build_outline _ s) as [[r s']| |] eqn:E; cbn [fst]; try (repeat split; reflexivity).
+    apply build_outline_spec in E. cbn zeta in E. destruct E as [E1 [E2 [E3 _]]]. repeat split; assumption.
+Qed.
+
+Lemma srun_same_bm O : forall ops s b, s_no_renumber ops -> same_bm s b ->
+  same_bm (srun_ops O s ops) (Outline.add_all b (bcalls ops)).
+Proof.
+  unfold srun_ops. induction ops as [|o ops IH]; intros s b NR E; cbn [fold_left bcalls]; [exact E|].
+  destruct NR as [NR1 NR2]. pose proof (sstep_same_bm O s o NR1) as H. destruct o as [x|t f c p par|].
+  - apply IH; [exact NR2|]. destruct H as [H1 [H2 H3]]. destruct E as [E1 [E2 E3]]. repeat split; congruence.
+  - cbn [Outline.add_all fold_left]. apply IH; [exact NR2|]. cbn [sstep]. unfold Outline.add_op. cbn [Outline.op_title Outline.op_format Outline.op_color Outline.op_page Outline.op_parent].
+    pose proof (add_bookmark_same_bm s b (Outline.new_bookmark t c f p) par E) as G.
+    destruct (Outline.add_bookmark s _ par) as [s1 i1]. exact G.
+  - apply IH; [exact NR2|]. destruct H as [H1 [H2 H3]]. destruct E as [E1 [E2 E3]]. repeat split; congruence.
+Qed.
